@@ -187,7 +187,7 @@ def tool_build(name):
         raise BuildError("go build of tool %s failed:\n%s" % (name, out[-2000:]))
     return binp
 
-GENERATED = {"mergeprogs": "MergeProgs.lean", "lockfacts": "LockFacts.lean", "eventtables": "EventTables.lean"}
+GENERATED = {"mergeprogs": "MergeProgs.lean", "lockfacts": "LockFacts.lean", "eventtables": "EventTables.lean", "chanfacts": "ChanFacts.lean"}
 # translated units (tools/extract/gotrans REPO <unit>): one Lean module per Go function under Generated/<unit>/
 GOTRANS = {"gocircuit": "GoCircuit", "gohopener": "GoHOpener", "gohcloser": "GoHCloser", "goconsec": "GoConsec",
            "gorunstats": "GoRunStats", "gofbstats": "GoFbStats", "goslo": "GoSlo", "gotimedcheck": "GoTimedCheck", "golivecfg": "GoLiveCfg",
